@@ -336,6 +336,12 @@ func (e *Exec) methodOf(t types.Type, m *types.Func) *ssa.Function {
 
 func (e *Exec) invoke(st *State, fr *Frame, cc *ssa.CallCommon, recv *IfaceV, args []Value, pos token.Pos) []Outcome {
 	e.oblige(st, fr, "safe.nil", pos, Not(Eq(recv.Tid, IntConst(0))))
+	if recv.Tid.Op == "intconst" && recv.Tid.Val != 0 && e.tidTypes[int(recv.Tid.Val)-1] == nil {
+		if outs, ok := e.invokeModel(st, fr, cc, recv, args, pos); ok {
+			return outs
+		}
+		panic(unsupported("method call on a foreign library value"))
+	}
 	if recv.Tid.Op == "intconst" {
 		t := e.tidTypes[int(recv.Tid.Val)-1]
 		fn := e.methodOf(t, cc.Method)
